@@ -155,6 +155,25 @@ def check_contact(ctx):
             l2.append(" ".join(["ctfm", interp[0], frac_s(F(fill)), "0", frac_s(F(t0)), frac_s(F(dt)), ",".join(f"{i}:{j}" for i, j in pairs),
                                 qmat(Gp.real), qmat(Gp.imag), qmat(lookup)]))
             meta.append((res[kind][0], cj, kind, len(pairs), np.abs(G).max() * 2 + abs(fill), extra, okm))
+        # the default weights obtained under their former name (`default_scanline_weights`, kept as a deprecated alias) and handed
+        # to delay-and-sum as contact_tfm does give the same image
+        import warnings
+        from arim import ut as _ut2
+        from arim.im import das as _das
+        for kind in ("fmc", "hmc"):
+            r0, pairs, fr0 = res[kind]
+            with warnings.catch_warnings():
+                warnings.simplefilter("ignore")
+                try:
+                    w_old = _ut2.default_scanline_weights(fr0.tx, fr0.rx)
+                    fl_ = tfm.FocalLaw(np.ascontiguousarray(lookup), np.ascontiguousarray(lookup), None, w_old)
+                    r_old = _das.delay_and_sum(fr0, fl_, interpolation=interp, fillvalue=fill)
+                except Exception as e:
+                    ctx.violate(f"the legacy-name weights path raised {type(e).__name__}: {str(e)[:80]}", {**cj, "capture": kind}, {"kind": "alias"})
+                    continue
+            ctx.count("contact:legacy_weights_name")
+            if not close(r_old, r0, np.abs(G).max() * 2 + abs(fill), len(pairs)):
+                ctx.violate(f"contact image ({kind}) with the default weights taken under their deprecated name differs from contact_tfm with its default weights", {**cj, "capture": kind}, {"kind": "alias"})
         # unit amplitudes (a TxRxAmplitudes of ones, as an apodisation switched off) give the same image as no amplitudes
         ones = tfm.TxRxAmplitudes(np.ones((grid.numpoints, numel)), np.ones((grid.numpoints, numel)))
         for kind in ("fmc", "hmc"):
